@@ -104,4 +104,419 @@ Section RpalProofs.
     rewrite Ht. clear. induction tokens as [|t l IH]; simpl; [reflexivity|].
     destruct (keep_out t) eqn:E; simpl; [rewrite E, IH; reflexivity | exact IH].
   Qed.
+
+  (* ================================================================ *)
+  (*  totality (C07): the pass returns for every token list            *)
+  (* ================================================================ *)
+  (* flags of an action token *)
+  Definition K (e : etok) : Prop :=
+    is_action (e_tok e) = true -> e_start e = false /\ e_end e = false /\ e_blank e = true.
+  (* the last pending token is no action token *)
+  Definition J (p : list etok) : Prop :=
+    forall l x, p = l ++ [x] -> is_action (e_tok x) = false.
+
+  Lemma K_eval t : K (eval t).
+  Proof.
+    unfold K, Rpal.eval. destruct (is_action t) eqn:E; simpl; [auto|].
+    intros H. congruence.
+  Qed.
+  Lemma K_nonaction e : is_action (e_tok e) = false -> K e.
+  Proof. unfold K. intros H H'. congruence. Qed.
+
+  Lemma J_tail t p : J (t :: p) -> J p.
+  Proof. intros H l x E. apply (H (t :: l) x). rewrite E. reflexivity. Qed.
+
+  Lemma J_suffix a b : b <> [] -> J (a ++ b) -> J b.
+  Proof.
+    intros _ H l x E. apply (H (a ++ l) x). rewrite E, app_assoc. reflexivity.
+  Qed.
+
+  Lemma J_replace_front a a' b : b <> [] -> J (a ++ b) -> J (a' ++ b).
+  Proof.
+    intros Hb H l x E. apply J_suffix in H; [|exact Hb].
+    destruct (exists_last Hb) as (lb & xb & Eb). subst b.
+    rewrite app_assoc in E. apply app_inj_tail in E. destruct E as [_ E]. subst x.
+    apply (H lb xb). reflexivity.
+  Qed.
+
+  Lemma collect_last : forall p acc buf b rest,
+    acc <> [] -> Forall K p -> J (rev acc ++ p) ->
+    collect p acc = (buf, b, rest) ->
+    exists l x, buf = l ++ [x] /\ is_action (e_tok x) = false.
+  Proof.
+    induction p as [|t p IH]; intros acc buf b rest Ha HK HJ H; simpl in H.
+    - inversion H; subst. rewrite app_nil_r in HJ.
+      assert (rev acc <> []) as Hr.
+      { intros E. apply (f_equal (@rev _)) in E. rewrite rev_involutive in E. exact (Ha E). }
+      destruct (exists_last Hr) as (l & x & E). exists l, x. split; [exact E|].
+      apply (HJ l x E).
+    - inversion HK as [|? ? Kt Kp]; subst.
+      assert (Hna : e_end t = true \/ e_blank t = false -> is_action (e_tok t) = false).
+      { intros Hc. destruct (is_action (e_tok t)) eqn:E; [|reflexivity].
+        destruct (Kt E) as (_ & He & Hb). destruct Hc; congruence. }
+      destruct (e_end t) eqn:Ee.
+      + inversion H; subst. exists (rev acc), t. split; [reflexivity | apply Hna; left; reflexivity].
+      + destruct (e_blank t) eqn:Eb; simpl in H.
+        * eapply IH; [| exact Kp | | exact H]; [discriminate|].
+          simpl. rewrite <- app_assoc. exact HJ.
+        * inversion H; subst. exists (rev acc), t.
+          split; [reflexivity | apply Hna; right; reflexivity].
+  Qed.
+
+  Lemma is_action_set t s p :
+    is_action (set_pos (set_txt t s) p) = is_action t /\ is_action (set_txt t s) = is_action t.
+  Proof. split; reflexivity. Qed.
+
+  Lemma rpal_loop_total : forall fuel pending out,
+    (length pending < fuel)%nat -> Forall K pending -> J pending ->
+    exists res, rpal_loop fuel pending out = Ok res.
+  Proof.
+    induction fuel as [|k IH]; intros pending out Hf HK HJ; [lia|].
+    destruct pending as [|t p]; cbn [Rpal.rpal_loop]; [eexists; reflexivity|].
+    inversion HK as [|? ? Kt Kp]; subst. simpl in Hf.
+    destruct (negb (e_start t)) eqn:Est.
+    { apply IH; [lia | exact Kp | eapply J_tail; exact HJ]. }
+    apply negb_false_iff in Est.
+    destruct (collect p [t]) as [[buf b] rest] eqn:Ec.
+    pose proof (collect_last p [t] buf b rest ltac:(discriminate) Kp HJ Ec) as (lb & lst' & Elb & Hlst).
+    apply collect_app in Ec. destruct Ec as [Eb Hl]. simpl in Eb, Hl.
+    assert (Hlen : (length buf + length rest = S (length p))%nat).
+    { apply (f_equal (@length _)) in Eb. rewrite app_length in Eb. simpl in Eb. exact Eb. }
+    assert (HKr : Forall K rest).
+    { assert (Forall K (buf ++ rest)) as HH by (rewrite Eb; exact HK).
+      apply Forall_app in HH. apply HH. }
+    assert (HJ' : J (buf ++ rest)) by (rewrite Eb; exact HJ).
+    destruct (rev buf) as [|lst rb] eqn:Er.
+    { apply (f_equal (@length _)) in Er. rewrite rev_length in Er. simpl in Er. lia. }
+    assert (Elst : lst = lst').
+    { rewrite Elb, rev_app_distr in Er. simpl in Er. inversion Er. reflexivity. }
+    subst lst'.
+    (* the new pending lists keep J *)
+    assert (HJnew : forall front, (forall x, In x front -> True) ->
+              (rest = [] -> exists f x, front = f ++ [x] /\ is_action (e_tok x) = false) ->
+              J (front ++ rest)).
+    { intros front _ Hfr. destruct rest as [|r0 rest'] eqn:Erest.
+      - destruct (Hfr eq_refl) as (f & x & Ef & Hx). rewrite app_nil_r.
+        intros l y E. rewrite Ef in E. apply app_inj_tail in E. destruct E as [_ E].
+        subst y. exact Hx.
+      - eapply J_replace_front; [discriminate | exact HJ']. }
+    destruct (b && Nat.ltb 1 (length buf) && existsb (fun e => is_action (e_tok e)) buf) eqn:Ecnd.
+    - (* a pure action line is removed: at least three tokens are involved *)
+      apply andb_true_iff in Ecnd. destruct Ecnd as [Ecnd Hex].
+      apply andb_true_iff in Ecnd. destruct Ecnd as [_ Hlt]. apply Nat.ltb_lt in Hlt.
+      assert (H3 : (3 <= length buf)%nat).
+      { destruct buf as [|x [|y [|z buf3]]]; simpl in *; try lia. exfalso.
+        inversion Eb; subst x. inversion Er; subst.
+        simpl in Hex. rewrite Hlst in Hex. simpl in Hex. repeat rewrite Bool.orb_false_r in Hex.
+        destruct (Kt Hex) as (Hs & _). congruence. }
+      match goal with |- exists res, rpal_loop k (?s :: ?e2 :: rest) ?o = Ok res =>
+        apply (IH (s :: e2 :: rest) o) end.
+      + simpl. lia.
+      + constructor; [apply K_nonaction; reflexivity|].
+        constructor; [apply K_eval | exact HKr].
+      + match goal with |- J (?s :: ?e2 :: rest) =>
+          change (J ([s; e2] ++ rest)); apply HJnew; [auto|];
+          intros _; exists [s], e2; split; [reflexivity|] end.
+        rewrite e_tok_eval.
+        destruct (find_index (N.eqb c_nl) (txt (e_tok lst))); [destruct (pfix (e_tok lst))|];
+          exact Hlst.
+    - destruct (Nat.ltb 1 (length buf)) eqn:E1.
+      + apply Nat.ltb_lt in E1.
+        apply (IH (eval (e_tok lst) :: rest) (out ++ removelast buf)).
+        * simpl. lia.
+        * constructor; [apply K_eval | exact HKr].
+        * change (J ([eval (e_tok lst)] ++ rest)). apply HJnew; [auto|].
+          intros _. exists [], (eval (e_tok lst)). split; [reflexivity|].
+          rewrite e_tok_eval. exact Hlst.
+      + apply Nat.ltb_ge in E1. apply (IH rest (out ++ buf)); [lia | exact HKr |].
+        destruct rest as [|r0 rest']; [intros l x E; destruct l; discriminate|].
+        eapply J_suffix; [discriminate | exact HJ'].
+  Qed.
+
+  Theorem rpal_total tokens : exists r, remove_pure_action_lines is_space tokens = Ok r.
+  Proof.
+    unfold remove_pure_action_lines.
+    set (toks := filter _ tokens).
+    set (first := with_start (eval (TextT 0 []))).
+    set (last := with_end (eval (TextT _ []))).
+    destruct (rpal_loop_total (4 * length (first :: map eval toks ++ [last]) + 4)
+                (first :: map eval toks ++ [last]) []) as (res & E).
+    - lia.
+    - constructor; [apply K_nonaction; reflexivity|]. apply Forall_app. split.
+      + apply Forall_forall. intros e He. apply in_map_iff in He.
+        destruct He as (t & Et & _). subst e. apply K_eval.
+      + constructor; [apply K_nonaction; reflexivity | constructor].
+    - intros l x E. change (first :: map eval toks ++ [last])
+        with ((first :: map eval toks) ++ [last]) in E.
+      apply app_inj_tail in E. destruct E as [_ E]. subst x. reflexivity.
+    - rewrite E. cbn [rbind]. eexists. reflexivity.
+  Qed.
+
+  (* ================================================================ *)
+  (*  conservation (C03, C05): the pass deletes white space only        *)
+  (* ================================================================ *)
+  Hypothesis Hnl : is_space c_nl = true.
+
+  Definition ns (s : str) : str := filter (fun c => negb (is_space c)) s.
+  Definition nsl (l : list etok) : str := flat_map (fun e => ns (txt (e_tok e))) l.
+  Definition nst (l : list tok) : str := flat_map (fun t => ns (txt t)) l.
+
+  (* action and language tokens carry no text *)
+  Definition E0 (t : tok) : Prop := is_action t = true \/ is_lang t = true -> txt t = [].
+  (* the flags say what they should *)
+  Definition F (e : etok) : Prop :=
+    (e_blank e = true -> ns (txt (e_tok e)) = []) /\
+    (e_start e = true -> ns (after_last_nl (txt (e_tok e))) = []) /\
+    (e_end e = true -> ns (before_first_nl (txt (e_tok e))) = []).
+
+  Lemma ns_app a b : ns (a ++ b) = ns a ++ ns b.
+  Proof. apply filter_app. Qed.
+  Lemma nsl_app a b : nsl (a ++ b) = nsl a ++ nsl b.
+  Proof. apply flat_map_app. Qed.
+  Lemma ns_blank s : forallb is_space s = true -> ns s = [].
+  Proof.
+    induction s as [|c s IH]; simpl; intros H; [reflexivity|].
+    apply andb_true_iff in H. destruct H as [H1 H2]. rewrite H1. simpl. apply IH, H2.
+  Qed.
+  Lemma ns_nil_app a b : ns (a ++ b) = [] -> ns a = [] /\ ns b = [].
+  Proof. rewrite ns_app. apply app_eq_nil. Qed.
+  Lemma ns_skipn n s : ns s = [] -> ns (skipn n s) = [].
+  Proof. intros H. rewrite <- (firstn_skipn n s) in H. apply ns_nil_app in H. apply H. Qed.
+  Lemma ns_firstn n s : ns s = [] -> ns (firstn n s) = [].
+  Proof. intros H. rewrite <- (firstn_skipn n s) in H. apply ns_nil_app in H. apply H. Qed.
+
+  Lemma F_eval t : E0 t -> F (eval t).
+  Proof.
+    intros He. unfold F, Rpal.eval. destruct (is_action t) eqn:Ea; cbn [e_tok e_blank e_start e_end].
+    - rewrite (He (or_introl Ea)). repeat split; intros; try discriminate; reflexivity.
+    - repeat split; intros H; apply andb_true_iff in H; destruct H as [_ H];
+        apply ns_blank; exact H.
+  Qed.
+  Lemma F_sentinel p : F (with_start (eval (TextT p []))) /\ F (with_end (eval (TextT p []))).
+  Proof. split; repeat split; intros; reflexivity. Qed.
+
+  (* what collect returns *)
+  Lemma collect_struct : forall p acc buf b rest,
+    collect p acc = (buf, b, rest) ->
+    exists pre, Forall (fun e => e_blank e = true) pre /\
+      ((buf = rev acc ++ pre /\ rest = [] /\ p = pre) \/
+       (exists x, buf = rev acc ++ pre ++ [x] /\ p = pre ++ x :: rest /\
+                  (b = true -> e_end x = true))).
+  Proof.
+    induction p as [|t p IH]; intros acc buf b rest H; simpl in H.
+    - inversion H; subst. exists []. split; [constructor|]. left.
+      rewrite app_nil_r. repeat split.
+    - destruct (e_end t) eqn:Ee.
+      + inversion H; subst. exists []. split; [constructor|]. right. exists t.
+        simpl. repeat split. intros _. exact Ee.
+      + destruct (negb (e_blank t)) eqn:Eb.
+        * inversion H; subst. exists []. split; [constructor|]. right. exists t.
+          simpl. repeat split. discriminate.
+        * apply negb_false_iff in Eb. apply IH in H.
+          destruct H as (pre & Hpre & [(E1 & E2 & E3)|(x & E1 & E2 & E3)]).
+          -- exists (t :: pre). split; [constructor; assumption|]. left.
+             subst. simpl. rewrite <- app_assoc. repeat split.
+          -- exists (t :: pre). split; [constructor; assumption|]. right. exists x.
+             subst. simpl. rewrite <- !app_assoc. repeat split. exact E3.
+  Qed.
+
+  Lemma nsl_blank l : Forall (fun e => e_blank e = true) l -> Forall F l -> nsl l = [].
+  Proof.
+    induction 1 as [|e l He Hl IH]; intros HF; [reflexivity|].
+    inversion HF as [|? ? Fe Fl]; subst. simpl. destruct Fe as (Fb & _ & _).
+    rewrite (Fb He), (IH Fl). reflexivity.
+  Qed.
+
+  Lemma tl_ns a (s : str) : ns (a :: s) = [] -> ns s = [].
+  Proof. simpl. destruct (negb (is_space a)); [discriminate | auto]. Qed.
+
+  (* the cut of the first token of a removed line keeps its visible text *)
+  Lemma cut_start x :
+    ns (after_last_nl x) = [] ->
+    ns (match rfind_index (N.eqb c_nl) x with Some i => firstn (S i) x | None => [] end) = ns x.
+  Proof.
+    unfold after_last_nl. destruct (rfind_index (N.eqb c_nl) x) as [i|]; intros H.
+    - rewrite <- (firstn_skipn (S i) x) at 2. rewrite ns_app.
+      assert (ns (skipn (S i) x) = []) as E.
+      { destruct (skipn i x) as [|a r] eqn:Es.
+        - assert (skipn (S i) x = []) as E'.
+          { apply skipn_all2. apply skipn_nil_ge in Es. lia. }
+          rewrite E'. reflexivity.
+        - assert (skipn (S i) x = r) as E'.
+          { change (S i) with (1 + i)%nat. rewrite Nat.add_comm, <- skipn_skipn_add, Es. reflexivity. }
+          rewrite E'. eapply tl_ns. exact H. }
+      rewrite E, app_nil_r. reflexivity.
+    - simpl. symmetry. exact H.
+  Qed.
+
+  Lemma find_index_nth {A} (f : A -> bool) : forall l i,
+    find_index f l = Some i -> exists a, nth_error l i = Some a /\ f a = true.
+  Proof.
+    induction l as [|x l IH]; intros i H; simpl in H; [discriminate|].
+    destruct (f x) eqn:E.
+    - inversion H; subst. exists x. split; [reflexivity | exact E].
+    - destruct (find_index f l) as [j|]; simpl in H; [|discriminate].
+      inversion H; subst. apply IH. reflexivity.
+  Qed.
+
+  (* the cut of the last token: only its blank head up to the line break goes *)
+  Lemma cut_end x :
+    ns (before_first_nl x) = [] \/ ns x = [] ->
+    ns (match find_index (N.eqb c_nl) x with Some i => skipn (S i) x | None => [] end) = ns x.
+  Proof.
+    unfold before_first_nl. destruct (find_index (N.eqb c_nl) x) as [i|] eqn:Ei; intros H.
+    - destruct H as [H|H]; [|rewrite H; apply ns_skipn; exact H].
+      destruct (find_index_nth _ _ _ Ei) as (a & Ha & Hc). apply N.eqb_eq in Hc. subst a.
+      rewrite <- (firstn_skipn (S i) x) at 2. rewrite ns_app.
+      assert (firstn (S i) x = firstn i x ++ [c_nl]) as Ef.
+      { clear H Ei. revert x Ha. induction i as [|i IH]; intros x Ha; destruct x as [|c x];
+          try discriminate; simpl in *.
+        - inversion Ha; subst. reflexivity.
+        - f_equal. apply IH. exact Ha. }
+      rewrite Ef, ns_app, H. simpl. rewrite Hnl. reflexivity.
+    - destruct H as [H|H]; simpl; symmetry; exact H.
+  Qed.
+
+  Lemma rpal_loop_conserves : forall fuel pending out res,
+    rpal_loop fuel pending out = Ok res ->
+    Forall F pending -> Forall (fun e => E0 (e_tok e)) pending ->
+    nsl res = nsl out ++ nsl pending.
+  Proof.
+    induction fuel as [|k IH]; intros pending out res H HF HE; [discriminate|].
+    destruct pending as [|t p]; cbn [Rpal.rpal_loop] in H.
+    { inversion H; subst. simpl. rewrite app_nil_r. reflexivity. }
+    inversion HF as [|? ? Ft Fp]; subst. inversion HE as [|? ? Et Ep]; subst.
+    destruct (negb (e_start t)) eqn:Est.
+    { apply IH in H; [|exact Fp | exact Ep]. rewrite H, nsl_app, <- app_assoc.
+      change (t :: p) with ([t] ++ p). rewrite (nsl_app [t] p). reflexivity. }
+    apply negb_false_iff in Est.
+    destruct (collect p [t]) as [[buf b] rest] eqn:Ec.
+    pose proof (collect_struct _ _ _ _ _ Ec) as (pre & Hpre & Hcases).
+    pose proof (collect_app _ _ _ _ _ Ec) as [Eb _]. simpl in Eb.
+    assert (HFb : Forall F (buf ++ rest)) by (rewrite Eb; exact HF).
+    assert (HEb : Forall (fun e => E0 (e_tok e)) (buf ++ rest)) by (rewrite Eb; exact HE).
+    apply Forall_app in HFb. destruct HFb as [HFbuf HFrest].
+    apply Forall_app in HEb. destruct HEb as [HEbuf HErest].
+    replace (nsl (t :: p)) with (nsl buf ++ nsl rest) by (rewrite <- nsl_app, Eb; reflexivity).
+    destruct (rev buf) as [|lst rb] eqn:Er; [discriminate|].
+    assert (Ebuf : buf = rev rb ++ [lst]).
+    { rewrite <- (rev_involutive buf), Er. reflexivity. }
+    destruct (b && Nat.ltb 1 (length buf) && existsb (fun e => is_action (e_tok e)) buf) eqn:Ecnd.
+    - apply andb_true_iff in Ecnd. destruct Ecnd as [Ecnd _].
+      apply andb_true_iff in Ecnd. destruct Ecnd as [Hb Hlt]. apply Nat.ltb_lt in Hlt. subst b.
+      (* buf = t :: mid ++ [lst], mid blank, lst ends a line or is blank *)
+      assert (Hst : exists mid, buf = t :: mid ++ [lst] /\ nsl mid = [] /\
+                                (e_end lst = true \/ e_blank lst = true)).
+      { simpl in Hcases. destruct Hcases as [(E1 & E2 & E3)|(x & E1 & E2 & E3)].
+        - subst pre. assert (p <> []) as Hp.
+          { intros E. subst p. rewrite E1 in Hlt. simpl in Hlt. lia. }
+          destruct (exists_last Hp) as (mid & l' & El). subst p.
+          rewrite E1 in Ebuf. change (t :: mid ++ [l']) with ((t :: mid) ++ [l']) in Ebuf.
+          apply app_inj_tail in Ebuf. destruct Ebuf as [_ El]. subst l'.
+          apply Forall_app in Hpre. destruct Hpre as [Hm Hl].
+          exists mid. split; [exact E1|]. split.
+          + apply nsl_blank; [exact Hm|]. rewrite E1 in HFbuf.
+            inversion HFbuf as [|? ? _ HH]; subst. apply Forall_app in HH. apply HH.
+          + right. inversion Hl; assumption.
+        - rewrite E1 in Ebuf. change (t :: pre ++ [x]) with ((t :: pre) ++ [x]) in Ebuf.
+          apply app_inj_tail in Ebuf. destruct Ebuf as [_ El]. subst x.
+          exists pre. split; [exact E1|]. split.
+          + apply nsl_blank; [exact Hpre|]. rewrite E1 in HFbuf.
+            inversion HFbuf as [|? ? _ HH]; subst. apply Forall_app in HH. apply HH.
+          + left. apply E3. reflexivity. }
+      destruct Hst as (mid & Ebm & Hmid & Hlst).
+      assert (Flst : F lst /\ E0 (e_tok lst)).
+      { rewrite Ebm in HFbuf, HEbuf. split.
+        - inversion HFbuf as [|? ? _ HH]; subst. apply Forall_app in HH. destruct HH as [_ HH].
+          inversion HH; assumption.
+        - inversion HEbuf as [|? ? _ HH]; subst. apply Forall_app in HH. destruct HH as [_ HH].
+          inversion HH; assumption. }
+      destruct Flst as [Flst Elst].
+      match type of H with rpal_loop k (?s :: eval ?t2 :: rest) (out ++ eval ?t1 :: ?lg) = _ =>
+        set (t2' := t2) in *; set (t1' := t1) in *; set (langs := lg) in * end.
+      assert (Ht1 : ns (txt t1') = ns (txt (e_tok t))).
+      { unfold t1'. cbn [txt set_txt]. apply cut_start. destruct Ft as (_ & Fs & _). apply Fs, Est. }
+      assert (Ht2 : ns (txt t2') = ns (txt (e_tok lst))).
+      { assert (Hc := cut_end (txt (e_tok lst))).
+        assert (Hpre2 : ns (before_first_nl (txt (e_tok lst))) = [] \/ ns (txt (e_tok lst)) = []).
+        { destruct Flst as (Fb & _ & Fe). destruct Hlst as [H1|H1]; [left; apply Fe, H1 | right; apply Fb, H1]. }
+        specialize (Hc Hpre2). unfold t2'.
+        destruct (find_index (N.eqb c_nl) (txt (e_tok lst))); [destruct (pfix (e_tok lst))|];
+          cbn [txt set_txt set_pos]; exact Hc. }
+      assert (Hlangs : nsl langs = []).
+      { unfold langs. clear - HEbuf. induction buf as [|e l IHl]; [reflexivity|].
+        inversion HEbuf as [|? ? He Hl]; subst. simpl.
+        destruct (is_lang (e_tok e)) eqn:El; [|apply IHl; exact Hl].
+        simpl. rewrite (He (or_intror El)). simpl. apply IHl. exact Hl. }
+      assert (E2' : E0 t2').
+      { unfold t2'. intros Hk.
+        assert (txt (e_tok lst) = []) as Hx.
+        { apply Elst. destruct (find_index (N.eqb c_nl) (txt (e_tok lst)));
+            [destruct (pfix (e_tok lst))|]; exact Hk. }
+        rewrite Hx. simpl. reflexivity. }
+      apply IH in H.
+      + rewrite H. rewrite !nsl_app. cbn [nsl flat_map]. rewrite !e_tok_eval.
+        fold (nsl langs). fold (nsl rest). rewrite Hlangs, Ht1, Ht2.
+        rewrite Ebm. cbn [nsl flat_map]. rewrite flat_map_app. fold (nsl mid). rewrite Hmid.
+        simpl. rewrite !app_nil_r, <- !app_assoc. reflexivity.
+      + constructor; [apply F_sentinel|]. constructor; [apply F_eval; exact E2' | exact HFrest].
+      + constructor; [intros [Hk|Hk]; discriminate|].
+        constructor; [rewrite e_tok_eval; exact E2' | exact HErest].
+    - assert (Elst : E0 (e_tok lst) /\ True).
+      { rewrite Ebuf in HEbuf. apply Forall_app in HEbuf. destruct HEbuf as [_ HH].
+        inversion HH; subst. split; [assumption | exact I]. }
+      destruct Elst as [Elst _].
+      destruct (Nat.ltb 1 (length buf)).
+      + apply IH in H.
+        * rewrite H, !nsl_app. cbn [nsl flat_map]. rewrite e_tok_eval.
+          rewrite Ebuf at 2. rewrite Ebuf at 1. rewrite removelast_last, nsl_app.
+          cbn [nsl flat_map]. rewrite app_nil_r, <- !app_assoc. reflexivity.
+        * constructor; [apply F_eval; exact Elst | exact HFrest].
+        * constructor; [rewrite e_tok_eval; exact Elst | exact HErest].
+      + apply IH in H; [|exact HFrest | exact HErest].
+        rewrite H, nsl_app, <- app_assoc. reflexivity.
+  Qed.
+
+  (* every character that is no white space survives the pass, in order,
+     and none is invented *)
+  Theorem rpal_conserves tokens r :
+    Forall E0 tokens ->
+    remove_pure_action_lines is_space tokens = Ok r ->
+    nst r = nst tokens.
+  Proof.
+    intros HE H. unfold remove_pure_action_lines in H.
+    set (toks := filter _ tokens) in *.
+    set (first := with_start (eval (TextT 0 []))) in *.
+    set (last := with_end (eval (TextT _ []))) in *.
+    destruct (rpal_loop _ (first :: map eval toks ++ [last]) []) as [res| | |] eqn:El;
+      try discriminate.
+    cbn [rbind] in H. inversion H; subst r. clear H.
+    assert (HEt : Forall E0 toks).
+    { apply Forall_forall. intros t Ht. apply filter_In in Ht. rewrite Forall_forall in HE.
+      apply HE, Ht. }
+    apply rpal_loop_conserves in El.
+    - assert (Hout : forall l, nst (filter keep_out (map e_tok l)) = nsl l).
+      { induction l as [|e l IHl]; [reflexivity|]. simpl. unfold keep_out at 1.
+        destruct (txt (e_tok e)) eqn:Et.
+        - destruct (is_lang (e_tok e)); simpl; rewrite ?Et; simpl; exact IHl.
+        - simpl. rewrite Et, IHl. reflexivity. }
+      rewrite Hout, El. simpl. rewrite nsl_app. simpl. rewrite app_nil_r.
+      assert (Hm : nsl (map eval toks) = nst toks).
+      { clear. induction toks as [|t l IHl]; [reflexivity|]. simpl.
+        rewrite e_tok_eval, IHl. reflexivity. }
+      rewrite Hm. unfold toks. clear. induction tokens as [|t l IHl]; [reflexivity|].
+      simpl. destruct (txt t) eqn:Et.
+      + destruct (is_action t || is_lang t); simpl; rewrite ?Et; simpl; exact IHl.
+      + simpl. rewrite Et, IHl. reflexivity.
+    - constructor; [apply F_sentinel|]. apply Forall_app. split.
+      + apply Forall_forall. intros e He. apply in_map_iff in He.
+        destruct He as (t & Et & Hin). subst e. apply F_eval.
+        rewrite Forall_forall in HEt. apply HEt, Hin.
+      + constructor; [apply F_sentinel | constructor].
+    - constructor; [intros [Hk|Hk]; discriminate|]. apply Forall_app. split.
+      + apply Forall_forall. intros e He. apply in_map_iff in He.
+        destruct He as (t & Et & Hin). subst e. rewrite e_tok_eval.
+        rewrite Forall_forall in HEt. apply HEt, Hin.
+      + constructor; [intros [Hk|Hk]; discriminate | constructor].
+  Qed.
 End RpalProofs.
